@@ -24,6 +24,8 @@ pub enum Defect {
     BodyUnknownCharset,
     NoCarrier,
     BothCarriers,
+    /// the other carrier's marker is present but EMPTY (`?X-Amz-Algorithm=` next to an Authorization header)
+    BothCarriersEmptyAlgorithm,
     WrongAlgorithm,
     ParamNoEquals,
     MissingCredential,
@@ -63,6 +65,7 @@ pub const ALL_DEFECTS: &[Defect] = &[
     Defect::BodyUnknownCharset,
     Defect::NoCarrier,
     Defect::BothCarriers,
+    Defect::BothCarriersEmptyAlgorithm,
     Defect::WrongAlgorithm,
     Defect::ParamNoEquals,
     Defect::MissingCredential,
@@ -98,7 +101,7 @@ impl Defect {
         match self {
             PathBadEscape | PathAboveRoot | PathRelative => R_PATH,
             QueryBadEscape | BodyBadEscape | BodyUndecodable | BodyUnknownCharset => R_QUERY,
-            NoCarrier | BothCarriers => R_CARRIER,
+            NoCarrier | BothCarriers | BothCarriersEmptyAlgorithm => R_CARRIER,
             WrongAlgorithm => R_ALGORITHM,
             ParamNoEquals => R_SYNTAX,
             MissingCredential | MissingSignedHeaders | MissingSignature | MissingDate => R_MISSING,
@@ -170,6 +173,20 @@ pub fn build(dc: &DefectCase, defects: &[Defect]) -> Case {
     let has = |d: Defect| defects.contains(&d);
     let carrier = if dc.query_carrier { Carrier::Query } else { Carrier::Header };
     let mut plan = simple_plan(carrier);
+    // variations of the underlying valid request, driven by the variant byte
+    if dc.variant & 0x10 != 0 {
+        plan.spec.token = Some("tok/en+1=".into());
+        plan.entry.token = plan.spec.token.clone();
+    }
+    if dc.variant & 0x20 != 0 {
+        // request a few minutes before midnight UTC, server a few minutes after: dates differ inside the window
+        let t = crate::model::time::Instant::from_civil(2015, 8, 30, 23, 58, 0, 0);
+        plan = plan.with_time(t, crate::model::time::TsStyle::BASIC_Z);
+        plan.cfg.now = t.add_nanos(300_000_000_000);
+    }
+    if carrier == Carrier::Header {
+        plan.spec.sep = (dc.variant >> 6) + if dc.variant & 0x08 != 0 { 2 } else { 0 };
+    }
     plan.cfg.fold = true;
     plan.cfg.reqs = Reqs { always: vec!["X-Must".into()], if_in_request: vec![], prefixes: vec![], route: dc.variant % 3 };
     plan.logical.headers.push(("x-must".into(), vec![B::from("1")]));
@@ -258,8 +275,8 @@ pub fn build(dc: &DefectCase, defects: &[Defect]) -> Case {
     };
     let drop_auth_param = |v: &str, name: &str| -> String {
         let (alg, rest) = v.split_once(' ').unwrap_or((v, ""));
-        let kept: Vec<&str> = rest.split(", ").filter(|x| !x.starts_with(&format!("{}=", name))).collect();
-        format!("{} {}", alg, kept.join(", "))
+        let kept: Vec<&str> = rest.split(',').filter(|x| !x.trim().starts_with(&format!("{}=", name))).collect();
+        format!("{} {}", alg, kept.join(","))
     };
     // signature-shaped defects: all are refused by the final comparison only
     let sig_edit: Option<Box<dyn Fn(&str) -> String>> = if has(WrongSignature) {
@@ -312,6 +329,9 @@ pub fn build(dc: &DefectCase, defects: &[Defect]) -> Case {
             }
             if has(BothCarriers) {
                 req.uri = format!("{}&X-Amz-Algorithm=AWS4-HMAC-SHA256", req.uri);
+            }
+            if has(BothCarriersEmptyAlgorithm) {
+                req.uri = format!("{}&X-Amz-Algorithm{}", req.uri, if dc.variant & 1 == 0 { "=" } else { "" });
             }
             if has(NoCarrier) {
                 req.headers.retain(|(n, _)| !n.eq_ignore_ascii_case("authorization"));
@@ -412,10 +432,13 @@ pub fn check_defects(dc: &DefectCase, cc: &mut CaseCtx) -> CheckResult {
     if defects.contains(&NoCarrier) && defects.contains(&BothCarriers) {
         defects.retain(|d| *d != BothCarriers);
     }
+    if defects.contains(&NoCarrier) || defects.contains(&BothCarriers) {
+        defects.retain(|d| *d != BothCarriersEmptyAlgorithm);
+    }
     reduce_signature_defects(&mut defects);
     if dc.query_carrier {
-        // the query carrier has no free-form parameter list
-        defects.retain(|d| *d != ParamNoEquals);
+        // the query carrier has no free-form parameter list; an empty algorithm there is the algorithm defect
+        defects.retain(|d| *d != ParamNoEquals && *d != BothCarriersEmptyAlgorithm);
     }
     if defects.is_empty() {
         return Ok(());
